@@ -105,6 +105,11 @@ fn find_and_play_best_move(
             Err(_) => thread::sleep(Duration::from_millis(1)),
         }
     }
+    // several moves may have arrived since the channel was last looked at, the move to play is
+    // the last one the search thread handed over, not the first one of the backlog
+    while let Ok(b) = rx.try_recv() {
+        best_move = Some(b);
+    }
     #[cfg(walleye_verif)]
     crate::verif::io_loop_exit();
     let board = match best_move {
